@@ -1567,6 +1567,25 @@ class CFG:
     def _unwind_from(self, n: Node, label: str, ctxs, down_to: int):
         return self._unwind(n, ctxs, down_to, label)
 
+    @staticmethod
+    def _has_loop_exit(stmts) -> bool:
+        """A `break` that belongs to the loop these statements are the body of."""
+        def scan(ss):
+            for x in ss:
+                if isinstance(x, ast.Break):
+                    return True
+                if isinstance(x, (ast.For, ast.AsyncFor, ast.While, ast.FunctionDef, ast.AsyncFunctionDef, ast.ClassDef)):
+                    continue
+                for field in ("body", "orelse", "finalbody"):
+                    sub = getattr(x, field, None)
+                    if isinstance(sub, list) and sub and isinstance(sub[0], ast.stmt) and scan(sub):
+                        return True
+                for h in getattr(x, "handlers", []) or []:
+                    if scan(h.body):
+                        return True
+            return False
+        return scan(stmts)
+
     def _try_splice(self, s, ctxs) -> Optional[Frag]:
         from .inline import InlineBlock, has_jump, yield_is_tail
         if isinstance(s, (ast.With, ast.AsyncWith)):
@@ -1593,6 +1612,12 @@ class CFG:
             site = s.iter
             t = self.inliner.target(self._resolve_fi(), site, self._inline_stack, "for")
             if t is None:
+                return None
+            if any(isinstance(x, ast.YieldFrom) for x in _walk_own(t.node)) and self._has_loop_exit(s.body):
+                # a `break` in the caller's body would have to leave the loop the `yield from` turns into and the rest of
+                # the generator as well: not expressed here
+                self.inliner.declined[t.qualname] = "generator with `yield from` iterated by a loop that breaks"
+                self.inliner.declined_sites[t.qualname] = self.inliner.declined_sites.get(t.qualname, 0) + 1
                 return None
             pre, body, _ret = self.inliner.instantiate(self.fi, t, site, self._names_used(), want_ret=False)
             body = self.inliner.splice_yields(body, s.target, list(s.body), "for")
